@@ -89,7 +89,15 @@ type Call struct {
 	Error         error
 	Done          chan *Call
 	stream        *stream
+	// state tells the reader that delivers the response (0 -> callDelivering) and a caller that
+	// gives up (CallWithContext, 0 -> callAbandoned) apart: whoever comes second yields.
+	state int32
 }
+
+const (
+	callDelivering = 1
+	callAbandoned  = 2
+)
 
 func (call *Call) done() {
 	select {
@@ -450,6 +458,13 @@ func (conn *Conn) read(ctx *Context, async bool) {
 }
 
 func (conn *Conn) finishCall(ctx *Context, call *Call, seq uint64) {
+	if !atomic.CompareAndSwapInt32(&call.state, 0, callDelivering) {
+		// the caller has given up (CallWithContext): its reply object and its context buffer are
+		// its own again, the response is dropped
+		conn.bufferPool.PutBuffer(ctx.buffer)
+		putContext(ctx)
+		return
+	}
 	if len(ctx.value) > 0 {
 		if cap(call.Buffer) >= len(ctx.value) {
 			call.Value = call.Buffer[:len(ctx.value)]
@@ -515,6 +530,7 @@ func (conn *Conn) Close() (err error) {
 // RoundTrip executes a single RPC transaction, returning
 // a Response for the provided Request.
 func (conn *Conn) RoundTrip(call *Call) *Call {
+	atomic.StoreInt32(&call.state, 0)
 	done := call.Done
 	done = checkDone(done)
 	call.upgrade = getUpgrade()
@@ -568,7 +584,15 @@ func (conn *Conn) CallWithContext(ctx context.Context, serviceMethod string, arg
 		err = call.Error
 		PutCall(call)
 	case <-ctx.Done():
-		err = ctx.Err()
+		if atomic.CompareAndSwapInt32(&call.state, 0, callAbandoned) {
+			err = ctx.Err()
+		} else {
+			// the response is being delivered at this very moment (it arrived first): take it,
+			// so that nothing is written to the reply or the context buffer after the return
+			<-call.Done
+			err = call.Error
+			PutCall(call)
+		}
 	}
 	return err
 }
